@@ -37,6 +37,7 @@ type vGenMsg struct {
 
 var vFragLens = []int{0, 2, 1, 3}
 var vFragLensBig = []int{0, 126}
+var vFragLensMid = []int{0, 20} // longer than the 16-byte read buffer of the harness connections
 
 // vGenStream builds a valid stream: nMsgs data messages, each in 1..maxFrag fragments whose lengths come from
 // vFragLens[:nLens], payloads symbolic, optionally a Ping between two fragments. Frames are masked iff sent to a server.
@@ -44,6 +45,10 @@ func vGenStream(toClient bool, nMsgs, maxFrag, nLens int, pings bool) (frames []
 	lens := vFragLens
 	if vParam("big", 0) == 1 {
 		lens = vFragLensBig // fragments whose length needs the 16-bit length field
+		nLens = 2
+	}
+	if vParam("mid", 0) == 1 {
+		lens = vFragLensMid
 		nLens = 2
 	}
 	if vParam("deflate", 0) != 0 {
@@ -133,8 +138,23 @@ func verifC04_cut() {
 	t := vNewTransport(wire[:cut])
 	t.endMode = vChoose("end", 3)
 	t.step = vParam("step", 0)
+	if vParam("together", 0) == 1 {
+		t.endTogether = vChoose("endTogether", 2) == 1
+	}
+	if vParam("hdrFirst", 0) == 1 && hdrEnds[0] <= cut {
+		// the first frame's header arrives in a segment of its own: the connection's read buffer is empty when the
+		// payload is asked for
+		t.first = hdrEnds[0]
+	}
 	c := vNewConn(t, client, vCopts(vParam("deflate", 0)), 16, 64)
-	g := vReadLoop(c, 1+vChoose("buf", vParam("bufs", 2))*3, nMsgs+1)
+	var bufSize int
+	if vParam("bigbuf", 0) == 1 {
+		// a caller buffer at least as large as the connection's read buffer: payload reads bypass the read buffer
+		bufSize = 16 + vChoose("buf", 2)*48
+	} else {
+		bufSize = 1 + vChoose("buf", vParam("bufs", 2))*3
+	}
+	g := vReadLoop(c, bufSize, nMsgs+1)
 
 	// reference: which messages are complete in the prefix
 	complete := 0
